@@ -358,7 +358,7 @@ def parse_sim_file(path):
         for ln in f:
             ln = ln.rstrip('\n')
             if ln.startswith('\\*'):
-                m = re.match(r'^\\\* <(\w+)', ln)
+                m = re.match(r'^\\\* <(\w+(?:\([^)]*\))?)', ln)
                 if m:
                     act = m.group(1)
                 continue
@@ -379,6 +379,22 @@ def parse_sim_file(path):
     if beh:
         beh[0] = ('Init', beh[0][1])
     return beh
+
+
+def split_action(a):
+    """'WorkerFinish(2)' -> ('WorkerFinish', [2]);  'Submit(1,"x")' -> ('Submit', [1, 'x']);  'Init' -> ('Init', [])"""
+    m = re.match(r'(\w+)(?:\((.*)\))?$', a.strip())
+    if not m:
+        return a, []
+    args = []
+    if m.group(2):
+        for tok in m.group(2).split(','):
+            tok = tok.strip()
+            try:
+                args.append(parse_value(tok))
+            except Exception:
+                args.append(tok)
+    return m.group(1), args
 
 
 def simulate(module, cfg, *, num=100, depth=60, seed=1, timeout=300, spec_dir=SPEC_DIR, env=None):
